@@ -226,9 +226,13 @@ func (propC02) Gen(r *Rng, run uint64, tier string) *Plan {
 		// selection must go by what the daemon reports then.
 		c := p.World.Containers[r.Intn(len(p.World.Containers))]
 		p.Faults = []Fault{{Kind: FaultInventoryChange, Container: c.ID, Open: -1, K: 1}}
-		if r.Bool(0.5) {
+		switch x := r.Intn(100); {
+		case x < 35:
 			// renamed only: state and status stay what they were
 			p.Faults[0].ErrKind = "rename"
+		case x < 60:
+			// nothing but the image changes: its tag was moved to a newer image
+			p.Faults[0].ErrKind = "retag"
 		}
 		p.Tags["changed"] = c.ID
 	}
@@ -361,9 +365,13 @@ func c02Judge(p *Plan, o *Outcome, st *Stats, ms, msB []Matcher, kind string, rn
 		// (an implementation that lists once per query legitimately keeps the first view)
 		w2 := p.World.Clone()
 		if c := w2.Find(id); c != nil {
-			c.Names = []string{"/" + ChangedName(id)}
-			if p.Faults[0].ErrKind != "rename" {
-				c.State, c.Status = ChangedState, ChangedStatus
+			if p.Faults[0].ErrKind == "retag" {
+				c.Image = c.ImageID
+			} else {
+				c.Names = []string{"/" + ChangedName(id)}
+				if p.Faults[0].ErrKind != "rename" {
+					c.State, c.Status = ChangedState, ChangedStatus
+				}
 			}
 		}
 		worldB = &w2
